@@ -118,7 +118,7 @@ def write_turbomole(filename, cell):
     lines += "$lattice\n"
     lattice = cell.get_cell()
     for lattvec in lattice:
-        lines += ("%12.8f" * 3 + "\n") % tuple(lattvec)
+        lines += (" %12.8f" * 3 + "\n") % tuple(lattvec)
     lines += "$end\n"
     f_control = open(os.path.join(filename, "control"), "w")
     f_control.write(lines)
